@@ -30,6 +30,11 @@ FUEL = 600
 DEFS = """Definition orc2 (t : list (list (nat * nat))) (o p : nat) : option nat :=
   (fix go (l : list (nat * nat)) : option nat :=
      match l with [] => None | (p', v) :: l' => if Nat.eqb p p' then Some v else go l' end) (nth o t []).
+Definition c24_diffs (only_unaccepted : bool) : string :=
+  let d := diff_labels lang_labels tx_labels
+             (peg_equiv_diffs (seeds_of lang_labels tx_labels textx_seeds) lang_grammar tx_grammar) in
+  let d := if only_unaccepted then filter (fun p => negb (existsb (lp_eqb p) textx_accepted_diffs)) d else d in
+  sjoin ";" (map (fun p => String.append (show_str (fst p)) (String.append "~" (show_str (snd p)))) d).
 Definition c24_case (t : list (list (nat * nat))) (inp : list N) : string :=
   String.append (show_outcome lang_grammar (run lang_grammar lang_config (orc2 t) false %d inp))
     (String.append " | " (show_outcome tx_grammar (run tx_grammar tx_config (orc2 t) false %d inp))).""" % (FUEL, FUEL)
@@ -177,11 +182,11 @@ class Gen:
         t = []
         for _ in range(self.r.weighted([(0, 6), (1, 3), (2, 1)])):
             if self.r.chance(0.5):
-                t += ["import", self.r.choice(["base", "a.b.c", "x1", ".rel"])]
+                t += ["import", self.r.choice(["base", "a.b.c", "x1", ".rel"] + (["my-lib"] if self.r.chance(0.15) else []))]
             else:
                 t += ["reference", self.r.choice(["other", "some-lang", "a_b"])]
                 if self.r.chance(0.5):
-                    t += ["as", self.ident()]
+                    t += ["as", "a-b" if self.r.chance(0.1) else self.ident()]
         n = self.r.weighted([(1, 5), (2, 3), (3, 2), (0, 1 if self.f.get("empty") else 0)])
         for _ in range(n):
             t += self.rule()
@@ -350,8 +355,8 @@ def run(chk):
     t0 = time.time()
     chk.prove([langpeg_tr.translate])
     chk.notes.append("prove %.1fs" % (time.time() - t0))
-    n = 700 if chk.thorough else 70
-    n_model = 150 if chk.thorough else 24
+    n = 1800 if chk.thorough else 70
+    n_model = 360 if chk.thorough else 24
     cases = gen_cases(chk, n)
     texts = [c["text"] for c in cases]
     t0 = time.time()
@@ -404,8 +409,15 @@ def run(chk):
         tbl = "[" + ";".join("[" + ";".join("(%d,%d)" % x for x in per.get(i, [])) + "]" for i in range(nor)) + "]"
         s = pegdump.coq_str(c["text"])
         exprs.append("c24_case %s %s" % (tbl, s))
+    exprs = ["c24_diffs false", "c24_diffs true"] + exprs
     t0 = time.time()
     vals, errs = core.coq_eval("C24", IMPORTS, exprs, shard=max(1, -(-len(exprs) // core.NPROC)), defs=DEFS)
+    all_diffs, unaccepted = vals[0], vals[1]
+    vals = vals[2:]
+    chk.cov["differing_pairs"] = all_diffs
+    if unaccepted is None or unaccepted != "":
+        disagreements.append({"case": "the two live parser models differ outside the accepted pairs (lang.py label ~ textx.tx label)",
+                              "model": unaccepted, "all_differing_pairs": all_diffs})
     chk.notes.append("coq model eval %d cases %.1fs" % (len(exprs), time.time() - t0))
     if errs:
         disagreements.append({"case": "coq evaluation", "model": errs[:2]})
